@@ -706,9 +706,15 @@ pub fn coordinator(check: &dyn Check, a: &RunArgs) -> i32 {
     // crashes of a worker process
     for (case, what) in crashes {
         if check.panic_is_violation() {
-            let sig = match what.split("last panic before death: ").nth(1) {
-                Some(rest) => format!("crash|worker-died|{}", panic_sig(rest.lines().next().unwrap_or(""))),
-                None => "crash|worker-died".to_string(),
+            let sig = if what.contains("amv-alloc-cap:") {
+                "crash|worker-died|single-allocation-request>=1GiB".to_string()
+            } else if what.contains("memory allocation of") {
+                "crash|worker-died|allocation-failed-under-RLIMIT_AS".to_string()
+            } else {
+                match what.split("last panic before death: ").nth(1) {
+                    Some(rest) => format!("crash|worker-died|{}", panic_sig(rest.lines().next().unwrap_or(""))),
+                    None => "crash|worker-died".to_string(),
+                }
             };
             violations.push(Violation { sig, what, case, detail: J::Null });
         } else {
